@@ -2,6 +2,7 @@ package rules
 
 import (
 	"fmt"
+	"go/token"
 	"sort"
 	"strings"
 
@@ -22,7 +23,12 @@ func init() {
 			"(returns it, or got it as a parameter: the obligation moves to the caller through the callee's summary). Functions whose call cone performs no storage write, transfer or nested execution are views and exempt. " +
 			"A total updated in one record while the record holding the matching sum is not saved (or the reverse) is exactly how the totals and the per-delegator funds drift apart. Reviewed exceptions are listed with a " +
 			"reason that is re-verified on every run. Not decided (value-level): the arithmetic relating the records (sums, thresholds, unbonding periods), operation histories.",
-		Run: func(c *core.Ctx) { runWriteBack(c, "C38", "delegation", 25, wbExceptionsC38) },
+		Run: func(c *core.Ctx) {
+			runWriteBack(c, "C38", "delegation", 25, wbExceptionsC38)
+			c38Checkpoint(c)
+			c38NewDelegatorInitialised(c)
+			c38FundListConserved(c)
+		},
 	})
 	register(&Rule{
 		ID:    "C39",
@@ -208,4 +214,235 @@ func okReturn(in ssa.Instruction, pred *ssa.BasicBlock) bool {
 		}
 	}
 	return true
+}
+
+// c38Checkpoint: settling the rewards advances the checkpoint on every success path.
+func c38Checkpoint(c *core.Ctx) {
+	fn := anchorM(c, "vm/systemSmartContracts", "delegation", "computeAndUpdateRewards")
+	if fn == nil {
+		return
+	}
+	c.Analysed(fname(fn))
+	cp := c.P.Field("vm/systemSmartContracts", "DelegatorData", "RewardsCheckpoint")
+	if cp == nil {
+		c.Undecided("anchor", "DelegatorData.RewardsCheckpoint", fn.Pos(), "field not found")
+		return
+	}
+	stores := func(in ssa.Instruction) bool {
+		st, ok := in.(*ssa.Store)
+		if !ok {
+			return false
+		}
+		fa, ok := st.Addr.(*ssa.FieldAddr)
+		return ok && core.FieldOfAddr(fa) == cp
+	}
+	n := 0
+	for _, r := range core.Returns(fn) {
+		if !core.SuccessReturn(r, nil) {
+			continue
+		}
+		n++
+		r := r
+		esc, path := core.PathQ{Fn: fn, Via: stores, Target: func(in ssa.Instruction, _ *ssa.BasicBlock) bool { return in == ssa.Instruction(r) }}.Escape()
+		name := "delegation.computeAndUpdateRewards/return-after-loop"
+		if esc != nil {
+			name = "delegation.computeAndUpdateRewards/return-without-checkpoint"
+		}
+		c.Check(esc == nil, "C38/rewards-checkpoint-advances", name, r.Pos(),
+			"the success return lies behind the store that advances RewardsCheckpoint",
+			"computeAndUpdateRewards reports success without advancing RewardsCheckpoint ("+c.P.PathString(path)+"): a delegator without an active fund keeps an old checkpoint, and after delegating again is paid for the epochs in between with the new stake - rewards paid exceed rewards received")
+	}
+	c.Floor("C38/rewards-checkpoint-advances", 2)
+}
+
+// c38NewDelegatorInitialised: a delegator record that did not exist before gets its rewards
+// checkpoint before it is handed to anything that saves it.
+func c38NewDelegatorInitialised(c *core.Ctx) {
+	const pkg = "vm/systemSmartContracts"
+	cp := c.P.Field(pkg, "DelegatorData", "RewardsCheckpoint")
+	get := c.P.Method(pkg, "delegation", "getOrCreateDelegatorData")
+	if cp == nil || get == nil {
+		c.Undecided("anchor", "delegation.getOrCreateDelegatorData", 0, "not found")
+		return
+	}
+	funcs := c.P.FuncsOfPkg(pkg)
+	wb := core.NewWriteBack(funcs[0].Pkg, funcs)
+	wb.Run()
+	n := 0
+	for _, fn := range funcs {
+		for _, in := range core.CallsIn(fn, func(in ssa.Instruction, cc *ssa.CallCommon) bool { return cc.StaticCallee() == get }) {
+			call := in.(*ssa.Call)
+			var isNew, rec ssa.Value
+			if call.Referrers() != nil {
+				for _, r := range *call.Referrers() {
+					if ex, ok := r.(*ssa.Extract); ok {
+						switch ex.Index {
+						case 0:
+							isNew = ex
+						case 1:
+							rec = ex
+						}
+					}
+				}
+			}
+			if isNew == nil || rec == nil {
+				continue
+			}
+			// edges on which isNew is known to be false (an existing delegator: nothing to initialise)
+			notNew := func(b *ssa.BasicBlock, si int) bool {
+				ifi, ok := b.Instrs[len(b.Instrs)-1].(*ssa.If)
+				if !ok {
+					return false
+				}
+				cond, falseSucc := ifi.Cond, 1
+				if u, isU := cond.(*ssa.UnOp); isU && u.Op == token.NOT {
+					cond, falseSucc = u.X, 0
+				}
+				return cond == isNew && si == falseSucc
+			}
+			n++
+			c.Analysed(fname(fn))
+			setsCP := func(x ssa.Instruction) bool {
+				st, ok := x.(*ssa.Store)
+				if !ok {
+					return false
+				}
+				fa, ok := st.Addr.(*ssa.FieldAddr)
+				return ok && core.FieldOfAddr(fa) == cp && fa.X == rec
+			}
+			persists := func(x ssa.Instruction, _ *ssa.BasicBlock) bool {
+				cc := core.CallOf(x)
+				if cc == nil || cc.StaticCallee() == nil {
+					return false
+				}
+				for i, a := range cc.Args {
+					if a == rec && wb.Saves(cc.StaticCallee(), i) {
+						return true
+					}
+				}
+				return false
+			}
+			bad := ""
+			if esc, path := (core.PathQ{Fn: fn, From: call, Via: setsCP, ViaEdge: notNew, Target: persists}).Escape(); esc != nil {
+				bad = c.P.PathString(path)
+			}
+			c.Check(bad == "", "C38/new-delegator-initialised", fname(fn), in.Pos(),
+				"a delegator that did not exist gets RewardsCheckpoint assigned before it is saved",
+				"a newly created delegator can be saved without RewardsCheckpoint having been assigned ("+bad+"): it keeps checkpoint 0 and is later paid a share of every epoch since the contract was created - rewards paid exceed rewards received")
+		}
+	}
+	c.Floor("C38/new-delegator-initialised", 1)
+}
+
+// c38FundListConserved: withdraw rebuilds the delegator's list of unstaked funds; every fund of the
+// old list is kept in the new one or its entry is deleted/rewritten, and the loop ends by exhaustion.
+func c38FundListConserved(c *core.Ctx) {
+	const pkg = "vm/systemSmartContracts"
+	fn := anchorM(c, pkg, "delegation", "withdraw")
+	if fn == nil {
+		return
+	}
+	c.Analysed(fname(fn))
+	var loop *core.Loop
+	for _, l := range core.Loops(fn) {
+		if src := l.RangeSource(); src != nil && isFieldOf(src, "UnStakedFunds") {
+			loop = l
+		}
+	}
+	if loop == nil {
+		c.Undecided("C38/fund-list-conserved", "delegation.withdraw", fn.Pos(), "no loop over delegator.UnStakedFunds")
+		return
+	}
+	isKeep := func(in ssa.Instruction) bool {
+		call, ok := in.(*ssa.Call)
+		if !ok || !loop.Body[in.Block()] {
+			return false
+		}
+		b, ok := call.Call.Value.(*ssa.Builtin)
+		return ok && b.Name() == "append"
+	}
+	isConsume := func(in ssa.Instruction) bool {
+		cc := core.CallOf(in)
+		if cc == nil || !loop.Body[in.Block()] {
+			return false
+		}
+		if cc.IsInvoke() && cc.Method.Name() == "SetStorage" {
+			return true
+		}
+		return cc.StaticCallee() != nil && cc.StaticCallee().Name() == "saveFund"
+	}
+	esc, path := core.PathQ{Fn: fn, FromBlk: firstBodyBlock(loop), Via: func(in ssa.Instruction) bool { return isKeep(in) || isConsume(in) },
+		Target: func(in ssa.Instruction, _ *ssa.BasicBlock) bool { return in == loop.Header.Instrs[0] }}.Escape()
+	c.Check(esc == nil, "C38/fund-list-conserved", "delegation.withdraw/every-fund-kept-or-consumed", fn.Pos(),
+		"every pass keeps the fund in the new list or deletes/rewrites its entry",
+		"a pass of the loop neither keeps the fund in the new list nor deletes or rewrites its entry ("+c.P.PathString(path)+"): the fund stays in storage and in TotalUnStaked while no delegator references it")
+	// exits
+	for i, e := range loop.Exits() {
+		if e.From == loop.Header {
+			continue
+		}
+		to := e.From.Succs[e.Succ]
+		if core.OnlyErrorReturnsFrom(to, e.From, loop) || onlyFailureCodesFrom(to) {
+			continue
+		}
+		// reviewed: the exit of the partial-unbond branch, taken right after saveFund (see DESIGN 6.12: the
+		// branch needs the validator contract to unbond less than requested; its reachability through
+		// public operations was not established, so it is documented rather than claimed as a finding)
+		afterSave := false
+		for _, in := range to.Instrs { // a `break` branch is not part of the natural loop: the exit edge enters it
+			if cc := core.CallOf(in); cc != nil && cc.StaticCallee() != nil && cc.StaticCallee().Name() == "saveFund" {
+				afterSave = true
+			}
+		}
+		for _, in := range e.From.Instrs {
+			if cc := core.CallOf(in); cc != nil && cc.StaticCallee() != nil && cc.StaticCallee().Name() == "saveFund" {
+				afterSave = true
+			}
+		}
+		for _, cd := range core.CondsAt(e.From) {
+			if call, ok := cd.V.(*ssa.Call); ok {
+				_ = call
+			}
+		}
+		if !afterSave {
+			// walk back through error-check blocks of the save
+			for _, p := range e.From.Preds {
+				for _, in := range p.Instrs {
+					if cc := core.CallOf(in); cc != nil && cc.StaticCallee() != nil && cc.StaticCallee().Name() == "saveFund" {
+						afterSave = true
+					}
+				}
+			}
+		}
+		c.Check(afterSave, "C38/fund-list-conserved", fmt.Sprintf("delegation.withdraw/loop-exit#%d", i), firstPos(to),
+			"reviewed exit: the partial-unbond branch (taken only when the validator contract unbonds less than requested)",
+			"the loop over the delegator's unstaked funds is left early at "+c.P.Pos(firstPos(to))+" on a path that can succeed: the funds after this one are dropped from the delegator's list although they stay in storage and in TotalUnStaked")
+	}
+	c.Floor("C38/fund-list-conserved", 2)
+}
+
+// onlyFailureCodesFrom reports whether every path from b ends in a return of a constant
+// vmcommon.ReturnCode other than Ok.
+func onlyFailureCodesFrom(b *ssa.BasicBlock) bool {
+	seen := map[*ssa.BasicBlock]bool{}
+	var walk func(x *ssa.BasicBlock) bool
+	walk = func(x *ssa.BasicBlock) bool {
+		if seen[x] {
+			return true
+		}
+		seen[x] = true
+		if r, ok := x.Instrs[len(x.Instrs)-1].(*ssa.Return); ok {
+			return !okReturn(r, nil)
+		}
+		if len(x.Succs) == 0 {
+			return true
+		}
+		for _, s := range x.Succs {
+			if !walk(s) {
+				return false
+			}
+		}
+		return true
+	}
+	return walk(b)
 }
